@@ -65,6 +65,13 @@ func uwSweep(seed uint64) []scen {
 	// single gzip member: a cut exactly between two members leaves a stream that is itself a
 	// complete (marker-less) archive, which no reader can tell from the whole one
 	base.Archives[0].SplitMember = 0
+	// the sweep visits every offset of the compressed stream: keep the bodies small
+	for i := range base.Archives[0].Entries {
+		base.Archives[0].Entries[i].Zero = 0
+		if base.Archives[0].Entries[i].Pad > 6000 {
+			base.Archives[0].Entries[i].Pad = 600
+		}
+	}
 	raw, err := base.Archives[0].BuildTar()
 	if err != nil {
 		return nil
